@@ -12,7 +12,7 @@
 EXTENDS Terminal, Sequences
 
 InitM(w, h) == [arrived |-> <<>>, resize |-> FALSE, todo |-> <<>>, owe |-> <<>>, gen |-> 0, drawn |-> -1,
-                raised |-> {}, term |-> NewTerm(w, h), started |-> FALSE]
+                raised |-> {}, term |-> NewTerm(w, h), started |-> FALSE, top |-> 1]      \* top: the widget the application last made topmost
 
 RM(m, w) == [m |-> m, why |-> w]
 NoResize(keys) == SelectSeq(keys, LAMBDA k : k # "window resize")
@@ -60,12 +60,14 @@ JudgeM(m, e) ==
                              !.gen = IF e.handled THEN @ + 1 ELSE @]
          IN IF m.owe # <<>> THEN RM(m2, "unhandled_input_gets_declined_input")
             ELSE IF m.todo = <<>> \/ Head(m.todo) # e.key THEN RM(m2, "widget_gets_filtered_input_in_order")
+            ELSE IF e.w # m.top THEN RM(m2, "input_goes_to_the_topmost_widget")
             ELSE RM(m2, "-")
     [] e.t = "unhandled" ->
          LET m2 == [m EXCEPT !.owe = <<>>]
          IN IF m.owe # <<e.key>> THEN RM(m2, "unhandled_exactly_when_widget_declined")
             ELSE RM(m2, "-")
     [] e.t \in {"alarm", "pipe"} -> RM([m EXCEPT !.gen = @ + 1], "-")
+    [] e.t = "swap" -> RM([m EXCEPT !.gen = @ + 1, !.top = e.w], "-")     \* the application replaced the topmost widget
     [] e.t = "draw" -> RM([m EXCEPT !.drawn = e.gen], IF e.gen # m.gen /\ m.raised = {} THEN "draw_shows_current_state" ELSE "-")
     [] e.t = "raise" -> RM([m EXCEPT !.raised = @ \cup {e.kind}, !.owe = <<>>, !.todo = <<>>], "-")
     [] e.t = "wait" ->
